@@ -988,7 +988,12 @@ func (d *Debugger) hNextTxIdx() int {
 		return -1
 	}
 
-	return d.hFilterTxCursor1(c, c.CursorTx1+1, false) - 1
+	next := d.hFilterTxCursor1(c, c.CursorTx1+1, false)
+	if next > len(c.MsgTxs) {
+		return -1
+	}
+
+	return next - 1
 }
 
 // CurrentTx returns the current transition. Thread safe via Eval().
